@@ -164,7 +164,7 @@ class BufGen:
             picks = r.sample(pool, nin + 1)
             st = {"k": "gen", "ins": picks[:nin], "out": picks[nin], "tag": self.tag}
             if p.get("gather") and r.random() < p["gather"]:
-                st["lut"] = r.choice([b for b in self.bufs()[N_ARGS:] if b != st["out"]])  # a local buffer the kernel body loads from
+                st["lut"] = r.choice([b for b in self.bufs() + self.scope if b != st["out"]])  # a buffer the kernel body loads from: a local one, an argument, a loop-carried one
             return st
         if k == "sync":
             return {"k": "sync"}
@@ -196,6 +196,17 @@ class BufGen:
                     r.shuffle(head)
                 node["body"] = head + self.stmts(r.randint(0, 2), depth + 1, ivs + [iv], True)
                 del self.scope[-2:]
+                return node
+            if p.get("loop_allocs") and r.random() < p["loop_allocs"]:
+                # a tile buffer of this loop body: allocated at its head, visible only inside it
+                self.loop_bufs = getattr(self, "loop_bufs", 0) + 1
+                tile = f"%b{20 + self.loop_bufs}"
+                self.scope.append(tile)
+                self.tag += 2
+                head = [{"k": "alloc", "buf": tile}, {"k": "copy", "src": r.choice([f"%a{j}" for j in range(N_ARGS)]), "dst": tile, "tag": self.tag - 1},
+                        {"k": "gen", "ins": [tile], "out": r.choice(self.bufs()[N_ARGS:]), "tag": self.tag}]
+                node["body"] = head + self.stmts(r.randint(0, 2), depth + 1, ivs + [iv], True)
+                self.scope.remove(tile)
                 return node
             node["body"] = self.stmts(r.randint(1, 3), depth + 1, ivs + [iv], True)
             if p.get("while_loops") and r.random() < p["while_loops"]:
